@@ -65,7 +65,7 @@ VALUE_RULE = ("programs = histories of 1..40 operations (construct / copy / move
               "swap / decay / element write / clear / reshape / assign / reextent / destroy) over a pool of 8 arrays of D 0..4 with extents 0..4 per "
               "dimension (index bases -2..3 in half of the programs), drawn from the pool's current state; after every operation all live arrays "
               "(extents, all elements, storage token) are observed; distinct = different program text; non-trivial = at least two operations and "
-              "some observed array with >= 2 elements")
+              "some observed array with >= 2 elements; the +perm modes add programs of one array (D 2..4, extents 2..3, all-distinct values), a view of it with permuted dimensions (chain of rotated / unrotated / transposed) and one consumer of the view (construction, decay, the two view assignments over an empty / equal-extents / other-extents target)")
 
 
 def nontrivial(prog_lines, answer_lines):
